@@ -178,6 +178,7 @@ func (c *Config) setProxy() error {
 
 func parseBucketLookupType(typeStr string) (minio.BucketLookupType, error) {
 	valMap := map[string]minio.BucketLookupType{
+		"":     minio.BucketLookupAuto, // Unspecified (the default in YAML configs).
 		"auto": minio.BucketLookupAuto,
 		"dns":  minio.BucketLookupDNS,
 		"path": minio.BucketLookupPath,
